@@ -337,6 +337,11 @@ def run(tier, seed, replay=None):
         if quick:
             tokens4 = [t for i, t in enumerate(tokens4) if len(t) <= 3 or i % 2 == 0]
         for t in tokens4:
+            real = rc.guarded(lambda: C._expand_home_only(t))
+            mv = mcall(["expand_home_only", t])
+            out.case(["eho", t])
+            if mv != real:
+                disagree("Paths.expand_home_only <-> config._expand_home_only", {"token": t}, mv, real)
             for force in (False, True):
                 real = rc.guarded(lambda: C._expand_token(t, cwdp, force_path=force))
                 mv = mcall(["expand_token", sc.cwd, t, force])
@@ -523,7 +528,7 @@ def run(tier, seed, replay=None):
         n_spell = 0
         DECS = rc.VERDICTS
 
-        def emit(rule, tpl, ps, qs, same, i, tail=None, mode=None, cwd_=None, extra_=None):
+        def emit(rule, tpl, ps, qs, same, i, tail=None, mode=None, cwd_=None, extra_=None, remote_=False):
             nonlocal n_spell
             mode = (i // 3) % 4 if mode is None else mode     # 0: plain prefix rule, 1: anchored, 2: trailing ' *', 3: plain + extra word
             case = {"rule": rule, "dec": DECS[i % 3], "exact": mode == 1, "star": mode == 2, "msg": i % 2 == 0, "tpl": tpl,
@@ -533,6 +538,8 @@ def run(tier, seed, replay=None):
                 case["cwd"] = U(cwd_)
             if extra_ is not None:
                 case["extra"] = extra_
+            if remote_:
+                case["remote"] = True
             if i % 7 == 3 and rule in ("command", "after"):
                 case["sep"] = ("  ", "\t", " \t ")[(i // 7) % 3]
             spell_case(case)
@@ -619,6 +626,8 @@ def run(tier, seed, replay=None):
                 emit(("command", "after")[(k + j) % 2], tpl, [t], [t], True, k + j, mode=0 if globby or (k + j) % 4 == 1 else (k + j) % 4,
                      extra_=0 if globby else None)
             emit("alias", "name", [t], [t], True, k)
+            # the same in remote mode (docker exec, ssh ...: no cwd normalisation on either side, ~ expanded on both)
+            emit("command", spell.POSITIONS[k % len(spell.POSITIONS)], [t], [t], True, k, mode=0 if globby else k % 4, extra_=0 if globby else None, remote_=True)
             if "*" not in t and not (t.endswith("/") and t.strip("/") == ""):
                 emit("redirect", None, [t], [t], True, k)
         # ** patterns of redirect rules: the directory respelled; targets below it and next to it, respelled
